@@ -7,15 +7,19 @@ MANIFEST = dict(
     cat="proof",
     tech="Coq proofs about the (graph, blockers) representation and about a transcription of the editing code + differential "
          "correspondence of the C++ with the extracted transcription and with the extracted abstract complex after every operation",
-    text="Coq theorems, unbounded: a closed complex is exactly the set of cliques of its 1-skeleton containing no minimal non-face, and "
-         "a blocker set with that property whose members have all proper faces present is the set of minimal non-faces; the blocker "
-         "sets induced by star removal, simplex insertion and vertex identification on the abstract complex; the transcribed "
-         "contains/add_blocker/remove_star(simplex of dimension >= 2)/remove_star(vertex, edge) refine the abstract operations under "
-         "the stated hypotheses, and a concrete witness refutes remove_star(vertex/edge) inside a large blocker.  The C++ is run on "
-         "generated histories (<= 30 operations, <= 8 vertex slots) against the extracted transcription AND the extracted abstract "
-         "complex: contains() on every subset, blocker set vs minimal non-faces, counts, simplex range, components, link condition "
-         "after every step; Betti numbers over Z_2, Z_3 (certified reduction of ReduceExec.v) and Euler characteristic before/after "
-         "every contraction of an edge satisfying the link condition.",
+    text="Coq theorems, unbounded (25, all closed under the global context): a closed complex is exactly the set of vertex lists "
+         "containing no minimal non-face, and a blocker list that represents it and whose members have all proper faces present IS "
+         "the set of minimal non-faces of dimension >= 2; minimal non-faces induced by star removal and simplex insertion, image "
+         "of a complex under the vertex identification of a contraction (closed; independent of freeing the simplices blocked through "
+         "ab); for the transcription of the C++: contains = gamma(graph, blockers), add_vertex, add_blocker, remove_star(simplex of "
+         "dimension >= 2) in every state, remove_star(vertex) / remove_star(edge) in every state without a blocker that has >= 3 "
+         "further vertices, each keeping the invariant 'contains = K, stored blockers = minimal non-faces of K'; concrete witnesses "
+         "refute remove_star(vertex/edge) inside a larger blocker (recorded finding).  The C++ is run on generated histories "
+         "(<= 30 operations, <= 8 vertex slots, plus every pair of admissible operations after 8 base complexes) against the "
+         "extracted transcription AND the extracted abstract complex: contains() on every subset, blocker set vs minimal non-faces, "
+         "counts, simplex range, components, link condition, links of simplices after every step; Betti numbers over Z_2, Z_3 "
+         "(certified reduction of ReduceExec.v) and Euler characteristic before/after every contraction of an edge satisfying the "
+         "link condition; the same histories through a build with the library's assertions enabled.",
     note="Trusted: Coq kernel, extraction + OCaml driver, the hand transcription (tied to the C++ by the differential run only), g++/Boost. "
          "Not formalised: link condition => homotopy equivalence (measured through Betti numbers and Euler characteristic); "
          "contract_edge, add_simplex and the link/iterator code are compared, not proved.  Recorded finding: remove_star of a vertex/edge "
